@@ -3348,6 +3348,15 @@ fn main() {
                     let op = what.split(' ').next().unwrap_or("?").to_string();
                     rep.fail(FailKind::Model, &format!("model:{op}:{}", im2.split(' ').next().unwrap_or("")),
                         &format!("at `{what}`: model `{m2}` vs implementation `{im2}`"), json!({"lines": l, "model": m2, "impl": im2}));
+                    // the search for a failing input: the property's monitors on the shrunk disagreeing case (in the
+                    // long case it came from, a monitor may have been switched off by something unrelated earlier on)
+                    if let Ok(Some(w2)) = catch(|| replay_lines(&l)) {
+                        for g in w2.fails.iter().filter(|g| mine(&g.0)) {
+                            let key = format!("{}:{}", focus.name(), g.1);
+                            if rep.failures.iter().any(|f| f["key"] == key) { continue; }
+                            rep.fail(FailKind::Impl, &key, &g.2, json!({"lines": l}));
+                        }
+                    }
                 }
             }
         }
